@@ -1479,8 +1479,12 @@ int NifFile::Save(std::ostream& file, const NifSaveOptions& options) {
 		NiOStream stream(&file, &hdr);
 		FinalizeData();
 
-		if (options.optimize)
+		if (options.optimize) {
 			Optimize();
+
+			// Strings of blocks that were just pruned must not stay in the string table
+			hdr.UpdateHeaderStrings(hasUnknown);
+		}
 
 		if (options.sortBlocks)
 			PrettySortBlocks();
